@@ -225,7 +225,11 @@ func (c *Counter) releaseReader(state counterStateBits) {
 
 func (c *Counter) releaseLock(state counterStateBits) {
 	for ; ; state = c.state.load() {
-		if !state.havePtr() {
+		// Optimization: only bother loading a new pointer
+		// if we have a value to add to it. Otherwise havePtr
+		// stays clear, so that the next Add loads the pointer
+		// instead of accumulating in extra forever.
+		if !state.havePtr() && state.extra() != 0 {
 			// Set havePtr before updating ptr,
 			// to avoid race with the next clear of havePtr.
 			if !c.state.update(&state, state.setHavePtr()) {
@@ -233,13 +237,8 @@ func (c *Counter) releaseLock(state counterStateBits) {
 			}
 			debugPrintf("releaseLock %s: reset havePtr (extra=%d)\n", c.name, state.extra())
 
-			// Optimization: only bother loading a new pointer
-			// if we have a value to add to it.
-			c.ptr = counterPtr{nil, nil}
-			if state.extra() != 0 {
-				c.ptr = c.file.lookup(c.name)
-				debugPrintf("releaseLock %s: ptr=%v\n", c.name, c.ptr)
-			}
+			c.ptr = c.file.lookup(c.name)
+			debugPrintf("releaseLock %s: ptr=%v\n", c.name, c.ptr)
 		}
 
 		if extra := state.extra(); extra != 0 && c.ptr.count != nil {
